@@ -133,7 +133,7 @@ def forbidden_scan(files=None):
                 depth -= 1
             if FORBIDDEN.search(line):
                 bad.append((os.path.relpath(f, VERIF), n, line.strip()))
-            if depth == 0 and re.match(r"\s*(Variable|Variables|Hypothesis|Hypotheses)\b", line):
+            if depth == 0 and re.match(r"\s*(Variable|Variables|Hypothesis|Hypotheses|Context)\b", line):
                 bad.append((os.path.relpath(f, VERIF), n, line.strip()))
     return bad
 
@@ -308,7 +308,7 @@ def theorem_lock_problems(pid):
     stm, inline = theorem_statements(pid)
     probs = ["theorem %s is proved inline in Properties/%s.v (must be `exact <lemma>`)" % (n, pid) for n in inline]
     if not os.path.exists(lock):
-        return probs, False
+        return probs + ["props/%s/theorems.lock.json is missing (run meta/lock_theorems.py %s)" % (pid, pid)], False
     pinned = json.load(open(lock)).get("theorems", {})
     for n, h in pinned.items():
         if n not in stm:
@@ -430,6 +430,10 @@ def overlay_json(scratch, mapping):
 # Known findings, verdicts, evidence
 # --------------------------------------------------------------------------------------
 
+MACHINERY_SIG = re.compile(r"(^|-)(proof-obligation|machinery-error|correspondence|harness|driver|impl-run-failed|"
+                           r"too-few-evaluations|no-model-checks|vm-compute-cross-check)(-|$|@)")
+
+
 def known_findings(pid):
     """known_findings.json is assembled from props/*/known_findings.json by meta/manifest_src.py;
     both are read so that a stale root file cannot hide an entry."""
@@ -440,7 +444,10 @@ def known_findings(pid):
             for f in json.load(open(p)).get("findings", []):
                 if f not in allf:
                     allf.append(f)
-    open_ = [f for f in allf if f["property"] == pid and f.get("status", "open") == "open"]
+    # an entry must say explicitly whether it is open or fixed; a signature of the machinery
+    # itself (proof gate, correspondence, harness/driver failures) can never be a known finding
+    open_ = [f for f in allf if f["property"] == pid and f.get("status") == "open"
+             and not MACHINERY_SIG.search(f.get("signature", ""))]
     fixed = [f for f in allf if f["property"] == pid and f.get("status") == "fixed"]
     return open_, fixed
 
@@ -458,8 +465,10 @@ class Ctx:
         self.coverage = {}
         self.assumptions = []
         self.level = "proof"
-        self.replay_dir = os.path.join(BUILD, "replay", pid)
+        # a replay run must not overwrite the file it is replaying
+        self.replay_dir = os.path.join(BUILD, "replay", pid, "replayed") if replay else os.path.join(BUILD, "replay", pid)
         os.makedirs(self.replay_dir, exist_ok=True)
+        self.min_evaluations = 10     # a run that explored (almost) nothing shows nothing; checks may raise it
         self.known_open, self.known_fixed = known_findings(pid)
 
     # ---- candidate handling -----------------------------------------------------------
@@ -504,6 +513,14 @@ class Ctx:
 
     # ---- finish -----------------------------------------------------------------------
     def finish(self):
+        # a degenerate run (no or almost no cases explored / compared) is not a pass
+        ev_n = self.coverage.get("evaluations")
+        if not self.replay and (not isinstance(ev_n, int) or ev_n < self.min_evaluations) \
+                and not any(v[3] for v in self.violations):
+            path = self.write_replay("%s-too-few-evaluations.json" % self.pid,
+                                     {"property": self.pid, "evaluations": ev_n, "floor": self.min_evaluations,
+                                      "note": "the correspondence run explored too few cases; the property is not shown"})
+            self.violations.append(("too-few-evaluations", "only %r cases were explored (floor %d)" % (ev_n, self.min_evaluations), path, False))
         # an undischarged obligation without any concrete failing input is still a violation
         if getattr(self, "proof_problems", None) and not any(v[3] for v in self.violations):
             path = self.write_replay("%s-proof.json" % self.pid,
@@ -512,6 +529,10 @@ class Ctx:
             self.violations.append(("proof-obligation", "; ".join(self.proof_problems)[:300], path, False))
         for sig, what in sorted(self.known_hits.items()):
             print("KNOWN-FINDING: property=%s %s [%s]" % (self.pid, what, sig))
+        not_hit = sorted(k["signature"] for k in self.known_open if k["signature"] not in self.known_hits)
+        if not_hit:
+            print("note: open findings not exercised by this run: %s" % ", ".join(not_hit))
+        self.coverage["open_findings_not_hit"] = not_hit
         for sig, desc, path, found in self.violations:
             print("VIOLATION property=%s replay=%s%s" % (self.pid, path, "" if found else " no-failing-input-found"))
             print("  (%s) %s" % (sig, desc[:600]))
